@@ -80,6 +80,7 @@ def BOUNDS(tier):
 
 
 def cases(tier):
+    yield Case("storage", {"kind": "storage"})
     ab, ns = _bin_range(tier)
     for a in ab:
         for b in ab:
@@ -110,6 +111,8 @@ def cases(tier):
 
 
 def evaluate(p):
+    if p["kind"] == "storage":
+        return _storage(p)
     with warnings.catch_warnings():
         warnings.simplefilter("ignore")
         k = p["kind"]
@@ -534,4 +537,38 @@ def _eebin(p):
     for cl, v in worst.items():
         o.check(cl, v <= TOL_R, measure=max(v, 0.0), tol=TOL_R, n=cnt)
     dm.flush(o)
+    return o
+
+
+def _storage(p):
+    """zoom, azimuthal average and encircled energy are functions of the pixel VALUES: other memory layouts and
+    dtypes of the same image give the same result"""
+    from mc import variants
+    from aotools import interpolation
+    from aotools.image_processing import psf
+    o = Out()
+    i, j = numpy.indices((8, 8))
+    img = ((3 * i * i + 5 * j + 2 * i * j) % 13 + 1).astype(float)
+    fns = {
+        "zoom_rbs:order1": lambda a: interpolation.zoom_rbs(a, (11, 11), order=1),
+        "zoom_rbs:order3": lambda a: interpolation.zoom_rbs(a, (11, 11), order=3),
+        "azimuthal_average": lambda a: psf.azimuthal_average(a),
+        "encircled_energy:curve": lambda a: psf.encircled_energy(a, eeDiameter=False)[1],
+        "encircled_energy:d50": lambda a: psf.encircled_energy(a),
+        "binImgs:2": lambda a: interpolation.binImgs(a, 2),
+    }
+    try:
+        interpolation.zoom(numpy.ones((4, 4)), (4, 4))
+        fns["zoom:order1"] = lambda a: interpolation.zoom(a, (11, 11), order=1)
+        fns["zoom:order3"] = lambda a: interpolation.zoom(a, (11, 11), order=3)
+    except Exception:
+        pass      # reported by entry_point_callable
+    for name, f in fns.items():
+        n = variants.check_storage(o, "result_independent_of_storage", f, img, 1e-10, sub=name)
+        o.stat("lib_calls", n)
+    cimg = img + 1j * img.T
+    for name in ("zoom_rbs:order3", "zoom:order3"):
+        if name in fns:
+            n = variants.check_storage(o, "result_independent_of_storage", fns[name], cimg, 1e-10, sub=name + ":complex")
+            o.stat("lib_calls", n)
     return o
